@@ -1,6 +1,6 @@
 \* deviation-tolerant configuration.  The round-1 findings are repaired in /repo (930d13f, 4ef0222,
 \* 8020218, 8c78f49): their constants are FALSE here; the driver sets them to TRUE only to NAME
-\* (AllowLateStart = TRUE: the one OPEN finding, start-after-close, see known_findings.d/C11.json)
+\* (start-after-close, found in round 2, was repaired in /repo by 46bea9c: AllowLateStart = FALSE as well)
 \* a violation should one of the old behaviours come back (and, while a finding is open, a constant
 \* set to TRUE here keeps the rest of such traces checked).
 SPECIFICATION TraceSpec
@@ -8,7 +8,7 @@ CONSTANTS
   AllowDupStart = FALSE
   AllowSilentInit = FALSE
   AllowRestartRace = FALSE
-  AllowLateStart = TRUE
+  AllowLateStart = FALSE
   AllowDoubleError = FALSE
   SInsts = {}
   SIds = {}
